@@ -94,6 +94,7 @@ func translateFunc(p *Pkg, key string, fd *ast.FuncDecl, isInit bool) *Func {
 		ft.changed = false
 		ft.body = nil
 		ft.depth = 0
+		ft.deferred = nil
 		for i, pr := range params {
 			v := RootSet{}
 			if pr.t.hasRef() {
@@ -108,7 +109,11 @@ func translateFunc(p *Pkg, key string, fd *ast.FuncDecl, isInit bool) *Func {
 				}
 			}
 		}
+		if fd.Body == nil {
+			ft.asmStub(key, f.NParams)
+		}
 		ft.block(fd.Body)
+		ft.runDefers()
 		if !ft.changed {
 			break
 		}
@@ -167,4 +172,27 @@ func globalType(pk, name string) Type {
 		}
 	}
 	return gv.T
+}
+
+// asmStub: the body of a declaration without Go body (assembly routine),
+// from the visible table asmStubs in sigs.go.
+func (ft *FT) asmStub(key string, nparams int) {
+	written, ok := asmStubs[key]
+	if !ok {
+		fmt.Fprintf(os.Stderr, "effgen: body-less function %s is not in asmStubs\n", key)
+		ft.write(unknownSet.copy(), "")
+		return
+	}
+	isW := map[int]bool{}
+	for _, i := range written {
+		isW[i] = true
+	}
+	for i := 0; i < nparams; i++ {
+		p := rs(Root{Kind: KParam, I: i})
+		if isW[i] {
+			ft.write(p, "")
+		} else {
+			ft.read(p)
+		}
+	}
 }
